@@ -22,6 +22,7 @@ CORE_MODELS = [
     T(1, [1], [1, 1, 1], P=0, K=3, H=6),                 # one LP
     T(4, [2, 1, 7, 0], [7, 1, 2], P=0, K=3, H=5),        # more LPs than threads
     T(2, [7, 7], [5, 7, 2], P=5, K=9, H=5),              # fan-out 2 + ties
+    T(2, [9, 9], [9, 2, 9], P=5, K=12, H=5),             # ties between 40-byte payloads differing beyond byte 32
 ]
 
 
